@@ -14,6 +14,11 @@
        svd_min, trunc_cut: "if a constraint can not be fulfilled (without violating a previous
        one), it is ignored";
      * k is the largest admissible keep-count ("keep as many as allowed");
+     * trunc_cut ("discard all small values as long as sum_{discarded} S^2 <= trunc_cut^2") has two
+       readings, selected by CutSemantics; they differ only when the budget ends inside a degenerate
+       multiplet (theorem ReadingsDifferOnlyInMultiplet).  The property statement ("discarded weight
+       at most trunc_cut squared") decides for "budget"; the implementation's masks realise
+       "directive", for which TLC refutes BudgetRespected;
      * reported: norm_new^2 = sum of the kept squares, err.eps = sum of the discarded squares,
        err.ov = 1 - 2 eps.
 
@@ -41,7 +46,7 @@ CONSTANTS Vals,          \* values a spectrum is built from (naturals)
                          \*           (what the implementation's mask does)
 
 VARIABLES S,        \* spectrum under construction
-          phase,    \* "build" | "pending" (an error waits to be accumulated)
+          phase,    \* "build" | "pending" (an error waits to be accumulated) | "done"
           last,     \* the last operation with arguments and observable result
           acc,      \* accumulated TruncationError: [eps |-> <<n, d>>, ov |-> <<n, d>>]
           nacc,     \* number of accumulated errors
@@ -65,7 +70,6 @@ SumSq(s) == IF s = <<>> THEN 0 ELSE Head(s) * Head(s) + SumSq(Tail(s))
 RECURSIVE SumSeq(_)
 SumSeq(s) == IF s = <<>> THEN 0 ELSE Head(s) + SumSeq(Tail(s))
 SetMax(X) == CHOOSE x \in X : \A y \in X : y <= x
-SetMin(X) == CHOOSE x \in X : \A y \in X : x <= y
 
 \* Evaluation context of one truncate() call: a = the spectrum sorted ascending, n = Len(a),
 \* low[c+1] = weight of the c smallest values, w = unit of the thresholds, o = options.
@@ -102,6 +106,7 @@ Fits(x, c) == Fits0(x.low, x.w, x.o.trunc_cut, c)
 \*   directive reading: everything that fits into the budget is discarded
 SatCutDirective(x, k) == x.n - k >= x.maxfit
 \*   budget reading (property: "discarded weight at most trunc_cut squared"): ... and nothing more
+\*   (Fits is downward closed, so this says: exactly the maxfit smallest values are discarded)
 SatCutBudget(x, k) == x.n - k >= x.maxfit /\ Fits(x, x.n - k)
 
 Sat(c, x, k, sem) ==
